@@ -35,6 +35,9 @@ import itertools
 from dataclasses import dataclass, field
 
 TRANSPARENT = {"tqdm", "list", "tuple", "iter"}
+# tuple IR of a namedtuple row written out by normalize.namedtuple_rows -> (field names, type name); values are hash-consed, so the
+# table is shared by all flows (an entry seen with two different meanings is blanked)
+_NT_ROWS: dict = {}
 
 
 @dataclass
@@ -297,11 +300,36 @@ class Flow:
                 if nm == n.attr:
                     return val
         if base[0] == "tuple":
-            fs = self.__dict__.get("_nt_rows", {}).get(base) or ()
+            fs = _NT_ROWS.get(base, ((), None))[0]
             if n.attr in fs:
                 return base[1][fs.index(n.attr)]
         r = self._record_field(base, n.attr)
         return r if r is not None else ("attr", base, n.attr)
+
+    def _as_record(self, obj):
+        """("record", type, ((field, value), ..)) for a value that is an instance of a record type of the module with every field
+        known -- `R(a, y=b)` of a type in self.records, a namedtuple row written out as a display, a record IR -- else None"""
+        if not isinstance(obj, tuple) or not obj:
+            return None
+        if obj[0] == "record":
+            return obj
+        if obj[0] == "tuple":
+            fs, tname = _NT_ROWS.get(obj, ((), None))
+            if fs and tname and len(fs) == len(obj[1]):
+                return ("record", tname, tuple(zip(fs, obj[1])))
+            return None
+        if obj[0] == "call" and obj[1][0] == "global" and obj[1][1] in self.records and obj[1][1] not in self.env:
+            fields = self.records[obj[1][1]]
+            args, kws = obj[2], dict(obj[3])
+            if any(a[0] == "star" for a in args) or "**" in kws or len(args) > len(fields) or any(k not in fields for k in kws):
+                return None
+            given = dict(zip(fields, args))
+            if set(given) & set(kws):
+                return None
+            given.update(kws)
+            if all(fl_ in given for fl_ in fields):
+                return ("record", obj[1][1], tuple((fl_, given[fl_]) for fl_ in fields))
+        return None
 
     def _record_field(self, base, field):
         """`R(a, b).f` with R a record type of the module (typing.NamedTuple / collections.namedtuple, see core._Canon._records) is the
@@ -351,8 +379,8 @@ class Flow:
         if fs and len(fs) == len(v[1]):
             # a namedtuple row written out by normalize.namedtuple_rows: remember the names of its positions, so that `row.field`
             # read through a local (`h = _Hopping(thermal=.., tunnel=..)` .. `h.thermal`) is the element (see e_Attribute)
-            tab = self.__dict__.setdefault("_nt_rows", {})
-            tab[v] = tuple(fs) if tab.get(v, tuple(fs)) == tuple(fs) else ()
+            ent = (tuple(fs), getattr(n, "_nt_type", None))
+            _NT_ROWS[v] = ent if _NT_ROWS.get(v, ent) == ent else ((), None)
         return v
 
     def e_Set(self, n):
@@ -556,6 +584,21 @@ class Flow:
                     inl = self._inline(callee, args, dict(kws))
                     if inl is not None:
                         return inl
+            # a method of a record class of the module called on a record whose fields are all known (`R(a, b).m(x)`, a namedtuple row
+            # `(..).m(x)`): the value the method returns with `self` standing for that record
+            rec = self._as_record(obj)
+            if rec is not None and self._depth < 2 and all(k != "**" for k, _ in kws):
+                callee = (getattr(self.func, "_sa_record_methods", None) or {}).get(rec[1], {}).get(f.attr)
+                flat = []
+                for a in args:          # `m(*t)` with t a display is m(t[0], t[1], ..)
+                    if a[0] == "star" and simp(a[1])[0] in ("tuple", "list") and not any(e[0] == "star" for e in simp(a[1])[1]):
+                        flat.extend(simp(a[1])[1])
+                    else:
+                        flat.append(a)
+                if callee is not None and not any(a[0] == "star" for a in flat):
+                    inl = self._inline(callee, tuple(flat), dict(kws), recv=rec)
+                    if inl is not None:
+                        return inl
             return ("meth", obj, f.attr, args, kws)
         # dispatch table: `table = {"k": self._m1, ...}; fn = table.get(key) / table[key]; fn(args)` is the if/elif chain
         # `key == "k" -> self._m1(args)` written as data
@@ -664,7 +707,7 @@ class Flow:
                 parts.append(("fmt", val, spec or None, c))
         return flatten_fstr(("fstr", tuple(parts)))
 
-    def _inline(self, callee, args, kws=None, bare=False):
+    def _inline(self, callee, args, kws=None, bare=False, recv=None):
         """Value returned by a small, loop-free helper method for these argument values (phi over its returns).  Instance, class
         and static methods (bare=True: a module-level function, no receiver); positional and keyword arguments; defaults."""
         kws = kws or {}
@@ -673,14 +716,23 @@ class Flow:
             return None
         params = [p.arg for p in callee.args.args]
         decs = {ast.unparse(d) for d in callee.decorator_list}
-        if callee.args.vararg or callee.args.kwarg or callee.args.kwonlyargs or decs - {"staticmethod", "classmethod"}:
+        if callee.args.kwarg or callee.args.kwonlyargs or decs - {"staticmethod", "classmethod"}:
+            return None
+        if callee.args.vararg and (callee.args.defaults or any(a[0] == "star" for a in args)):
             return None
         preset = {}
         if "staticmethod" not in decs and not bare:
             if not params:
                 return None
-            recv, params = params[0], params[1:]
-            preset[recv] = ("param", "self") if "classmethod" not in decs else ("param", "cls")
+            rname, params = params[0], params[1:]
+            # (recv: the record the method is called on, see e_Call)
+            preset[rname] = recv if recv is not None else ("param", "self") if "classmethod" not in decs else ("param", "cls")
+        if callee.args.vararg and len(args) >= len(params) and not any(k in params for k in kws):
+            # `def h(a, *rest)`: the surplus positional arguments arrive as the tuple `rest`
+            preset[callee.args.vararg.arg] = ("tuple", tuple(args[len(params):]))
+            args = args[:len(params)]
+        elif callee.args.vararg:
+            return None
         if len(args) > len(params) or any(k not in params for k in kws):
             return None
         preset.update(zip(params, args))
